@@ -183,6 +183,7 @@ func (e *Engine) instrMods(in ssa.Instruction, ms *ModSet, inLoop map[*ssa.Basic
 		if rg, ok := x.Iter.(*ssa.Range); ok {
 			if mt, ok := rg.X.Type().Underlying().(*types.Map); ok {
 				ms.add(visitedKey(rg, mt))
+				ms.add(visitCountKey(rg))
 			}
 		}
 	case *ssa.Send:
@@ -418,6 +419,11 @@ func (e *Engine) loopFrameInfo(li *loopInfo) *loopFrame {
 		}
 	}
 	return lf
+}
+
+// visitCountKey: ghost counter of the keys a map range has produced so far.
+func visitCountKey(rg *ssa.Range) KeyInfo {
+	return KeyInfo{Key: "GH!visitn!" + sanitize(rg.Parent().Name()) + "!" + rg.Name(), Ghost: "Int"}
 }
 
 func visitedKey(rg *ssa.Range, mt *types.Map) KeyInfo {
